@@ -993,6 +993,7 @@ func (fr *Frame) execInstr(instr ssa.Instruction, st *State, pc T) T {
 		return fr.runDefers(st, pc)
 	case *ssa.Go:
 		vc.Dropped = append(vc.Dropped, "go statement at "+e.Fset.Position(in.Pos()).String()+": goroutine body not verified in this context")
+		fr.havocGo(&in.Call, st)
 	case *ssa.Range:
 		fr.set(in, Val{Typ: in.Type(), Ts: nil, Tuple: []Val{fr.get(in.X)}})
 	case *ssa.Next:
@@ -1334,6 +1335,7 @@ func isPointerLike(t types.Type) bool {
 
 func (vc *VC) makeInterface(x Val, from, to types.Type) Val {
 	tag := vc.E.TypeID(from)
+	vc.noteConcrete(from)
 	if isPointerLike(from) {
 		return Val{Typ: to, Ts: []T{tag, x.Ts[0]}}
 	}
@@ -1401,6 +1403,7 @@ func (fr *Frame) typeAssert(in *ssa.TypeAssert, st *State, pc T) T {
 		// whether a dynamic type implements the asserted interface is a fixed (uninterpreted) function of the
 		// type tag and the interface, so that contracts can state it: implements(x, T)
 		vc.declareFun("gv_implements", []string{SortBV(64), SortBV(64)}, SortBool)
+		vc.noteIface(in.AssertedType)
 		okc := app("gv_implements", x.Ts[0], vc.E.TypeID(in.AssertedType))
 		ok = And(Not(Eq(x.Ts[0], BV(0, 64))), okc)
 		if ii, _ := in.X.Type().Underlying().(*types.Interface); ii != nil {
@@ -1667,9 +1670,13 @@ func (fr *Frame) runDefers(st *State, pc T) T {
 			continue
 		}
 		st2 := st.clone()
-		_, _ = fr.doCallWith(d.call, d.instr, d.fnVal, d.args, st2, g, d.instr.Pos())
+		_, npc2 := fr.doCallWith(d.call, d.instr, d.fnVal, d.args, st2, g, d.instr.Pos())
 		merged := vc.mergeStates([]T{d.guard, Not(d.guard)}, []*State{st2, st})
 		*st = *merged
+		if npc2 != g {
+			// the deferred call's own exit condition (e.g. the exit of a loop inside a deferred closure) holds afterwards
+			pc = vc.define("pc_defer", SortBool, And(pc, Imp(d.guard, npc2)))
+		}
 	}
 	return pc
 }
